@@ -297,6 +297,10 @@ class Program:
                 r = self.resolve_expr_symbol(ci.module, None, b)
                 if r and r[0] == "class":
                     ci.bases.append(r[1])
+                elif r and r[0] == "ext":
+                    ci.bases.append("ext:" + r[1])
+                elif r and r[0] == "builtin":
+                    ci.bases.append("ext:builtins." + r[1])
                 else:
                     ci.bases.append("ext:" + (dotted(b) or unparse(b)))
 
